@@ -76,7 +76,17 @@ func renderStage(prev string, st Stage, s int, p *Pipe) (string, bool) {
 		if st.Ident {
 			return prev + ".map(x->" + w("x") + ")", true
 		}
-		return prev + ".map(" + []string{"x->" + w("x") + "*3+1", "x->" + w("x") + "+7", "x->" + w("x") + "%1000", "x->" + w("x")}[st.Fn%4] + ")", true
+		inner := "y*x"
+		if st.Cost {
+			inner = "cost(" + strconv.Itoa(s) + ",y)*x"
+		}
+		return prev + ".map(" + []string{"x->" + w("x") + "*3+1", "x->" + w("x") + "+7", "x->" + w("x") + "%1000", "x->" + w("x"),
+			// nested pipelines inside the mapped closure (sequential, parallel, multiUse)
+			"x->numbers(" + w("x") + "%5+2).map(y->y*x).sum()",
+			"x->numbers(" + w("x") + "%4+13).map(y->" + inner + ").sum()",
+			"x->[" + w("x") + ",x+1,x+2].map(y->y*2).reduce((p,q)->p+q)",
+			"x->numbers(3).multiUse({s:l->l.sum(),n:l->l.size()}).s+" + w("x"),
+			"x->" + w("x") + "*3+1", "x->" + w("x") + "+7", "x->" + w("x") + "%1000", "x->" + w("x")}[st.Fn%12] + ")", true
 	case "accept":
 		if st.Ident {
 			return prev + ".accept(x->" + w("x") + ">=0)", true
@@ -237,7 +247,7 @@ func (p *Pipe) render() (string, error) {
 		for j, c := range p.MU {
 			var body string
 			var ok bool
-			if c.Op == "noread" || c.Op == "notfunc" || c.Op == "arity2" {
+			if c.Op == "noread" || c.Op == "notfunc" || c.Op == "arity2" || c.Op == "twice" || c.Op == "twice-short" {
 				body, ok = "7", true
 			} else if c.Op == "topsize" {
 				body, ok = renderTerm("l", c, ts+1+j, p)
@@ -248,6 +258,12 @@ func (p *Pipe) render() (string, error) {
 				return "", fmt.Errorf("bad multiUse consumer %q", c.Op)
 			}
 			switch c.Op {
+			case "twice": // the copied list is used twice: the second use is an error by design
+				parts = append(parts, "c"+strconv.Itoa(j)+": l->l.reduce((p,q)->p+q)+l.reduce((p,q)->p+q)")
+				continue
+			case "twice-short":
+				parts = append(parts, "c"+strconv.Itoa(j)+": l->l.first()+l.first()")
+				continue
 			case "notfunc":
 				parts = append(parts, "c"+strconv.Itoa(j)+": 3")
 				continue
@@ -317,7 +333,7 @@ func (p *Pipe) script(host HostTables) (*Script, error) {
 // closure-calling stages (those whose callback can carry cost/probe/fail wrappers)
 func hasClosure(op string) bool {
 	switch op {
-	case "top", "skip", "plus", "sum", "size", "string", "first", "last", "single", "lazy", "lazyk", "contains", "topsize", "noread", "notfunc", "arity2", "multiUse":
+	case "top", "skip", "plus", "sum", "size", "string", "first", "last", "single", "lazy", "lazyk", "contains", "topsize", "noread", "notfunc", "arity2", "twice", "twice-short", "multiUse":
 		return false
 	}
 	return true
